@@ -1,4 +1,5 @@
 import RsyncModel.GeneratorThm
+import RsyncModel.FsSitesSpec
 /-! # C10 — a dry run changes nothing (receiver side: generator, receive tail, directory touch-up)
 
 The file-system call sites behind these model functions are pinned by the regenerated `FsSites`
@@ -31,6 +32,14 @@ theorem touch_up_dry_run (o : Opts) (e : Entry) (n : Node) (h : o.dryRun = true)
   unfold touchUp; split
   · rfl
   · simp [h]
+
+/-- **Regenerated fact** (every mutating file-system call site of internal/receiver, from the current
+source): each one is dominated by an `if rt.Opts.DryRun { return … }` in its own function, or lies
+in a function that cannot be called from outside the package and is only called from positions that
+are (transitively) so dominated; and nothing inside a dry-run branch mutates. A guard that is
+removed, moved below a mutation, or a new unguarded mutation breaks this `decide`. -/
+theorem dryrun_sites_guarded : FsSitesSpec.drySafe = true ∧ FsSitesSpec.dryBranchPure = true :=
+  FsSitesSpec.dry_sites_guarded
 
 /-- non-vacuity: without `-n` the same step does change the destination (so the theorem is not
 true merely because the model never changes anything) -/
